@@ -880,7 +880,7 @@ def run(res, tier, seed):
     kc = []
     for _ in range(120 if tier == "quick" else 1200):
         mode = r.choice([-1, 1])
-        terms, vals = [], []
+        dterms, dvals = [], []
         for _t in range(r.randrange(2, 5)):
             n, y = r.randrange(1, 6), r.choice([4, 6, 8, 10, 20, 100])
             txt, face, cnt = f"{n}d{y}", (1 if mode < 0 else y), n
@@ -896,12 +896,12 @@ def run(res, tier, seed):
                 m = r.randrange(0, y + 1)
                 txt += f"max{m}"
                 face = min(face, m)
-            terms.append(txt)
-            vals.append(cnt * face)
+            dterms.append(txt)
+            dvals.append(cnt * face)
         if r.random() < 0.5:
-            kc.append((" + ".join(terms), str(sum(vals)), mode))
+            kc.append((" + ".join(dterms), str(sum(dvals)), mode))
         else:
-            kc.append(("[" + ", ".join(terms) + "]", "[" + ", ".join(str(v) for v in vals) + "]", mode))
+            kc.append(("[" + ", ".join(dterms) + "]", "[" + ", ".join(str(v) for v in dvals) + "]", mode))
     kc += [(src, exp, 0) for src, exp in _c13.loop_template_programs(random.Random(seed * 17 + 3), 60 if tier == "quick" else 600)]
     kc_rows = k2cases.go_run([k2cases.mk_input(src, mode=mode, oplimit=200000) for src, _, mode in kc])
     kc_bad = 0
